@@ -147,6 +147,9 @@ func checkC06(job *Job, res *Result) {
 				res.Cap("time budget hit; sequences are enumerated shortest first per initial state")
 				return
 			}
+			if job.Tier != "thorough" && len(seq) > 2 && (init == "aligned" || init == "big-diverged" || init == "big-empty") {
+				continue // quick tier: the > 512 KiB initial states with sequences of length <= 2 (all lengths in the thorough tier)
+			}
 			init, seq := init, seq
 			viol := func(sig, detail string) {
 				res.Violate("C06/"+sig+":"+init, fmt.Sprintf("%s  [initial follower state %s, events %v]", detail, init, names), map[string]any{"init": init, "events": names})
@@ -309,9 +312,16 @@ func checkC06(job *Job, res *Result) {
 						vsched.Sleep(int64(300 * stdtime.Millisecond))
 						vsched.Paused["F"] = false
 					}
-					// events may follow each other immediately or after the follower
-					// caught up: let a little virtual time pass, not a full settle
-					vsched.Sleep(int64(50 * stdtime.Millisecond))
+					// HEALTHZ may say OK only while SERVER says caught_up (asked right after the event,
+					// when the link may be down, and again a little later)
+					for probe := 0; probe < 2; probe++ {
+						if h := fc.Do("HEALTHZ"); h.String() == "+OK" && !followerCaughtUp(fc) {
+							viol("healthz-ok-while-not-caught-up", fmt.Sprintf("right after event %q HEALTHZ replied +OK although SERVER reports caught_up=false", c06Events[e]))
+						}
+						// events may follow each other immediately or after the follower
+						// caught up: let a little virtual time pass, not a full settle
+						vsched.Sleep(int64(25 * stdtime.Millisecond))
+					}
 				}
 				ok := settle()
 				vsched.OnPoint = nil
